@@ -28,9 +28,13 @@ C16_BOUNDED = [H + 'cat::v_concat_heap_receiver', H + 'cat::v_concat_inline_heap
 
 COMMON_ASSUMPTIONS = [
     'Verus 0.2026.09.13, its bundled Z3 and rustc 1.98.1 are correct',
-    'transformations T1-T8 of tools/extract.py preserve behaviour (T3 is the language definition of `for`; T8 binds a '
-    'closure parameter pattern with a `let` inside the closure body; '
-    'T2 drops trace!/debug! logging statements only; T7 names the return value); provenance check enforced every run',
+    'transformations T1-T10 of tools/extract.py preserve behaviour (T3 is the language definition of `for`; T8 binds a '
+    'closure parameter pattern with a `let` inside the closure body and names wildcard parameters; T2 drops trace!/debug! '
+    'logging statements only; T7 names the return value; T9 turns format! into an uninterpreted function of its literal and '
+    'arguments and anyhow! into an opaque error (message text not modelled); T10 writes `&a - &b` as the Sub::sub call it '
+    'stands for); provenance check enforced every run; the dropped text is listed in each unit\'s meta.json',
+    'a callee taken "by contract only" (external_body with the contract spliced from the owning unit\'s overlay) is proved in '
+    'the owning unit',
     'machine arithmetic is NOT idealised: usize operations in exec code carry overflow obligations',
 ]
 
